@@ -592,6 +592,31 @@ func (x *c17Run) updateSel(pre *types.AppState, slotsOf func(*types.Candidate) (
 						x.fail("c17-kicked-larger", fmt.Sprintf("%s: candidate %d: %s was kicked while a stake of %s stays", tag, c.ID, k.Amount, minStay))
 					case 0:
 						x.stat["kicks_equal_to_smallest_staying"]++
+						// tie: an incoming delegation that is not smaller than the smallest stake replaces it
+						// (the old stake goes to the waitlist, not the newcomer)
+						incoming, hadStake := false, false
+						for _, u := range us {
+							if u.Owner == k.Address && u.Coin == 0 && u.Value == k.Amount {
+								incoming = true
+							}
+						}
+						for _, st := range ss {
+							if st.Owner == k.Address && st.Coin == 0 {
+								hadStake = true
+							}
+						}
+						if incoming && !hadStake {
+							for _, st := range pc.Stakes {
+								if st.Coin != 0 || bi(st.Value).Cmp(minStay) != 0 {
+									continue
+								}
+								for _, o := range ss {
+									if o.Owner == st.Owner && o.Coin == 0 && o.Value == st.Value {
+										x.fail("c17-tie-incoming-loses", fmt.Sprintf("%s: candidate %d: the incoming delegation of %s by %s went to the waitlist although it is not smaller than the stake of %s by %s, which stays", tag, c.ID, k.Amount, k.Address.String(), st.Value, st.Owner.String()))
+									}
+								}
+							}
+						}
 					}
 				}
 			}
